@@ -104,9 +104,12 @@ def timeout(duration, func, *args, on_timeout=None, **kwargs):
             # Re-raise the original exception object; constructing a new one
             # fails for classes whose constructor needs other arguments
             e = ei[1]
-            e.__traceback__ = ei[2]
-            e.exc_info = target_thread.exc_info
-            raise e
+            try:
+                e.exc_info = target_thread.exc_info
+            except Exception:
+                # Student-defined exceptions may not accept new attributes
+                pass
+            raise e.with_traceback(ei[2])
 
 
 # =========================================================================
